@@ -11,9 +11,18 @@ namespace Driver.C11
 open BtcVerif Driver
 open BtcVerif.Model.Bech32
 
+/-- A Python `str` can hold lone surrogates (U+D800..U+DFFF), a Lean `Char` cannot.  They are mapped to the
+    private-use code points U+E000..U+E7FF.  This does not change any outcome of the modelled functions:
+    every code point above 126 in the string given to `bech32_decode` is refused by its first test before
+    anything else looks at it; in an `hrp` argument such a code point only takes part in an equality test
+    against an all-ASCII string (`decode`) or in `hrp_expand`, whose result is unobservable because the
+    self-check of `encode` then refuses the string. -/
 def parseStr? (s : String) : Option (List Char) := do
   let ns ← parseNatList? s
-  ns.mapM (fun n => if n.isValidChar then some (Char.ofNat n) else none)
+  ns.mapM (fun n =>
+    if n.isValidChar then some (Char.ofNat n)
+    else if 0xD800 ≤ n ∧ n ≤ 0xDFFF then some (Char.ofNat (0xE000 + (n - 0xD800)))
+    else none)
 
 def showNats (l : List Nat) : String := joinWith "," (l.map toString)
 
